@@ -2,6 +2,7 @@
 from kunit import H
 
 KJOBS = {}
+KJOBS_THOROUGH = {'K-KERN': 8}   # the thorough kernel harnesses (longer tails, 8 scalars each) need up to ~7 GB each
 SOLVER_ASSUMED = ('assumed contract (not verified): pi_solver::fused_inverse_mul_symbols{,_no_hdpc} returns Some(C) only for the unique '
                   'solution C of the constraint system it was given, and None only when that system is rank deficient')
 
